@@ -89,6 +89,18 @@ func TestVerifC03(t *testing.T) {
 			}
 		}
 	}
+	// duration spellings a later version might accept (days, weeks, years, bare numbers): rejected today; whatever is
+	// accepted goes through the same comparison (50000 days do not fit 32 bits of seconds)
+	for k, val := range []string{"30d", "49711d", "50000d", "106752d", "2w", "7102w", "1y", "137y", "1.5d", "86400", "4294967296", "1e10s", "0x10s", "1h30", "P1D", "1 day"} {
+		for _, key := range []struct{ stanza, base, key string }{
+			{"prefix", "prefix = \"2001:db8:1::/64\"\n", "valid_lifetime"},
+			{"route", "prefix = \"2001:db8:f::/48\"\n", "lifetime"},
+			{"rdnss", "servers = [\"2001:db8::53\"]\n", "lifetime"},
+		} {
+			vbC03Case(t, out, fmt.Sprintf("c03-newdur-%s-%d", key.stanza, k),
+				fmt.Sprintf("[[interfaces]]\nname = \"eth0\"\nadvertise = true\n[[interfaces.%s]]\n%s%s = %q\n", key.stanza, key.base, key.key, val))
+		}
+	}
 	n := 1500
 	if verifh.Thorough() {
 		n = 30000
